@@ -11,11 +11,12 @@ with a plain dictionary of what was inserted and not invalidated) is also evalua
 after every operation.  Streams: corpus (witnesses of the known findings, replayed first), exhaustive short
 sequences over a reduced alphabet, seeded random sequences.
 
-Clean domain.  The real code has three defect classes (see known_findings.json C19-*): (a) an operation that gives a
-node the id of the root or of one of its proper ancestors, (b) a case-insensitive rename() whose new leaf name is not
-in normal form, (c) an insertion at the root path.  The model reproduces all three faithfully (so correspondence
-continues through them) but the property predicates are evaluated only up to the first such operation of a
-sequence: the corpus carries one exact witness per class, registered by case id."""
+Clean domain.  The real code has two open defect classes (see known_findings.json C19-*): (a) an operation that gives a
+node the id of the root or of one of its proper ancestors, (c) an insertion at the root path.  The model reproduces both
+faithfully (so correspondence continues through them) but the property predicates are evaluated only up to the first such
+operation of a sequence: the corpus carries exact witnesses per class, registered by case id.  A third class, (b) a
+case-insensitive rename() storing the new leaf name un-normalised, was repaired in /repo (commit 5cc1cf3); its witnesses
+stay in the corpus as regression cases (create('/a','i1'); rename('/a','/A') must keep the two views inverse)."""
 import glob
 import itertools
 import json
@@ -403,8 +404,6 @@ class Hook:
             tgt, o = op[1], op[3]
         elif k == "rename":
             tgt = op[2]
-            if not prov.case_sensitive and prov.basename(tgt) != prov.basename(prov.normalize_path(tgt)):
-                return "b:rename-unnormalised-name"
         if tgt is not None and prov.normalize_path(tgt) == "/":
             return "c:insert-at-root-path"
         if tgt is not None and o is not None:
@@ -538,10 +537,7 @@ def gen_seq(rng, cs, ups, cache_factory):
         elif r < 0.38:
             op = ["mkdir", path(0.25), oid(), gen_md(rng, True)]
         elif r < 0.54:
-            new = path(0.3)
-            if not cs and rng.random() < 0.75:               # keep most case-insensitive renames inside the modelled fragment
-                new = new[:-1] + new[-1].lower()
-            op = ["rename", path(0.85), new]
+            op = ["rename", path(0.85), path(0.3)]
         elif r < 0.62:
             op = ["delete", None, path(0.8)]
         elif r < 0.69:
@@ -760,6 +756,8 @@ def run(ctx):
         if ctx.replay:
             data = json.load(open(ctx.replay))
             case = data.get("case", data)
+            if "ops" not in case and isinstance(case.get("case"), dict):
+                case = case["case"]
             r = run_cases([case], ups, uos, model)[0]
             print(json.dumps(dict(diff=r["diff"], outcomes=r["outcomes"], pred_fail=r["pred_fail"],
                                   left_clean_domain=r["left_why"], unmodelled_at=r["unmodelled_at"]), indent=1, default=repr))
@@ -869,6 +867,6 @@ def run(ctx):
           "correspondence harness harness/checks/c19.py (generator, canonicalisation of paths to name lists, ids to small numbers, "
           "exception classes to an enum); CPython dict ordering and reference counting",
           "modelled, not verified: path string parsing (split/join/normalize_path; that is C13), names longer than one character, "
-          "falsy ids (''), caller-side aliasing of metadata dicts, states after an un-normalised rename / root-path insertion "
+          "falsy ids (''), caller-side aliasing of metadata dicts, states after a root-path insertion "
           "(the model answers Unmodelled there), garbage collection of weakly referenced detached nodes"]
     return ctx.finish(tb)
